@@ -187,9 +187,8 @@ fn any_av(rng: &mut Rng, depth: usize, used: &mut Vec<String>, dist: &mut Dist) 
     }
 }
 
-/// Give every `pick` occurrence arguments and a response key that is a function of them.
-/// DV has no variable-bearing lists/objects, so those are carried as `DV::Var`-free consts when
-/// constant and as raw text otherwise: we keep a side table (text, sexp) keyed by a placeholder.
+/// Give every `pick` occurrence arguments and a response key that is a function of them
+/// (equal keys = equal arguments, so OverlappingFieldsCanBeMerged stays satisfied).
 fn decorate(ss: &mut [SelN], rng: &mut Rng, used: &mut Vec<String>, table: &mut Vec<String>, side: &mut Vec<(String, AV)>, dist: &mut Dist) {
     for s in ss.iter_mut() {
         match s {
@@ -269,9 +268,6 @@ fn decorate(ss: &mut [SelN], rng: &mut Rng, used: &mut Vec<String>, table: &mut 
     }
 }
 
-// The family's DV cannot nest variables in lists/objects; C22 prints and serialises its own
-// argument values.  After `decorate`, an argument value `DV::Var("@k")` stands for `side[k]`.
-
 fn av_sexp(v: &AV) -> Sexp {
     match v {
         AV::Leaf(d) => d.to_sexp(),
@@ -341,7 +337,27 @@ fn gen_case(rng: &mut Rng, _i: usize, _o: &Opts, dist: &mut Dist) -> Sexp {
         }
         let text = print_doc(&mut doc);
         let wg = WorldGen { sd, fail_16: 0, nonfinite: false };
-        let w = wg.generate(rng, &sd.query, dist);
+        let mut w = wg.generate(rng, &sd.query, dist);
+        // keep the resolvers that have sub-fields with arguments beneath them alive more often
+        let mut es = std::mem::take(&mut w.entries);
+        for ((id, f), rv) in es.iter_mut() {
+            if *id == 0 && matches!(rv, RVal::Null) && rng.chance(3, 4) {
+                match f.as_str() {
+                    "me" => *rv = RVal::Obj("Query".into(), 0),
+                    "pick" | "i" => *rv = RVal::Obj(rng.pick(&["A", "B"]).to_string(), *rng.pick(&[1u32, 2, 3])),
+                    _ => {}
+                }
+            }
+        }
+        // (ids 1..=3 are A objects, 4..=6 B objects)
+        for ((_, _), rv) in es.iter_mut() {
+            if let RVal::Obj(ty, id) = rv {
+                if ty == "B" && *id < 4 {
+                    *id += 3;
+                }
+            }
+        }
+        let w = World::new(es);
         node(
             "case",
             vec![
